@@ -1033,6 +1033,14 @@ func (c *Client) DialToSMTPClientWithContext(ctxDial context.Context) (*smtp.Cli
 		return nil, err
 	}
 
+	// The context deadline only covers the dial itself. Arm the connection deadline so that the
+	// greeting, EHLO/HELO, STARTTLS (including the TLS handshake) and SMTP AUTH are bound by the
+	// configured timeout as well.
+	if err = connection.SetDeadline(time.Now().Add(c.connTimeout)); err != nil {
+		_ = connection.Close()
+		return nil, fmt.Errorf("failed to set connection deadline: %w", err)
+	}
+
 	client, err := smtp.NewClient(connection, c.host)
 	if err != nil {
 		return nil, err
@@ -1486,6 +1494,12 @@ func (c *Client) checkConn(client *smtp.Client) error {
 		return ErrNoActiveConnection
 	}
 
+	// The deadline has to be extended before the NOOP is sent, otherwise the NOOP would run
+	// against the (possibly expired) deadline of the previous operation or without any deadline.
+	if err := client.UpdateDeadline(c.connTimeout); err != nil {
+		return ErrDeadlineExtendFailed
+	}
+
 	c.mutex.RLock()
 	noNoop := c.noNoop
 	c.mutex.RUnlock()
@@ -1493,10 +1507,6 @@ func (c *Client) checkConn(client *smtp.Client) error {
 		if err := client.Noop(); err != nil {
 			return ErrNoActiveConnection
 		}
-	}
-
-	if err := client.UpdateDeadline(c.connTimeout); err != nil {
-		return ErrDeadlineExtendFailed
 	}
 	return nil
 }
